@@ -17,6 +17,10 @@ pub enum Seg {
     /// `clusters` x 4095 contents of length 0: clusters that hold no byte at all
     #[serde(alias = "Empty")]
     Empties { clusters: u8, hint: Hint },
+    /// one incompressible content with hint Yes (the stored size of its cluster exceeds the plain size)
+    Noise { len: u32, seed: u32 },
+    /// `n` compressible contents of a few KiB with hint Detect (the creator reads their head, rewinds)
+    Detect { n: u8, seed: u32 },
 }
 
 #[derive(Serialize, Deserialize, Clone, Copy, Debug, PartialEq, Eq, Hash)]
@@ -185,6 +189,13 @@ pub fn expand(segs: &[Seg]) -> Vec<(Vec<u8>, Hint)> {
                     out.push((vec![], *hint));
                 }
             }
+            Seg::Noise { len, seed } => out.push((content_bytes(*seed, *len as usize, Entropy::High), Hint::Yes)),
+            Seg::Detect { n, seed } => {
+                for i in 0..*n as u32 {
+                    let len = 3000 + (seed.wrapping_add(i * 977) % 6000) as usize;
+                    out.push((content_bytes(seed.wrapping_add(i), len, Entropy::Text), Hint::Detect));
+                }
+            }
             Seg::Big { n, extra, hint, seed } => {
                 for i in 0..*n as u32 {
                     let len = (2usize << 20) + 4096 + *extra as usize * 32 + i as usize;
@@ -201,7 +212,7 @@ impl Property for C08 {
     const ID: &'static str = "C08";
 
     fn rule() -> String {
-        "proptest-generated insertion sequences built from runs of tiny contents (4095 fill a cluster, raw with hint No / compressed with hint Yes) and contents larger than half a cluster (one compressed cluster each), giving 3..60 clusters mixing raw and compressed; each sequence is created 4-6 times with different (perturbation plan, visible CPU count) pairs: plans inject seeded delays inside the public Progress callbacks (main thread at cluster opening, compression workers at handle_cluster, writer thread at handle_cluster_written): none / uniform random {0, yield, 100us, 400us, 2ms} / first compressed cluster slowest / writer slower than all workers / workers finish in reverse order / slow main thread; CPU counts 1..15 through sched_setaffinity (=> 1..14 workers, queue limits 2..28, both shorter and longer than the number of queued clusters). Oracle (metamorphic + model): every run terminates, every address returned resolves to its own bytes in a fresh reader, count and check() are right, the independent decoder finds every cluster inside the file and non-overlapping; addresses are identical across runs. Non-trivial = at least two runs of the case wrote their clusters to the file in different orders (observed through handle_cluster_written); distinct by (sequence shape, number of distinct orders). In half of the cases the first content of every segment / cluster is handed over as a file (InputFile), the others from memory (the writer copies the two kinds through different paths).".into()
+        "proptest-generated insertion sequences built from runs of tiny contents (4095 fill a cluster, raw with hint No / compressed with hint Yes) and contents larger than half a cluster (one compressed cluster each), giving 3..60 clusters mixing raw and compressed; each sequence is created 4-6 times with different (perturbation plan, visible CPU count) pairs: plans inject seeded delays inside the public Progress callbacks (main thread at cluster opening, compression workers at handle_cluster, writer thread at handle_cluster_written): none / uniform random {0, yield, 100us, 400us, 2ms} / first compressed cluster slowest / writer slower than all workers / workers finish in reverse order / slow main thread; CPU counts 1..15 through sched_setaffinity (=> 1..14 workers, queue limits 2..28, both shorter and longer than the number of queued clusters). Oracle (metamorphic + model): every run terminates, every address returned resolves to its own bytes in a fresh reader, count and check() are right, the independent decoder finds every cluster inside the file and non-overlapping; addresses are identical across runs. Non-trivial = at least two runs of the case wrote their clusters to the file in different orders (observed through handle_cluster_written); distinct by (sequence shape, number of distinct orders). In half of the cases the first content of every segment / cluster is handed over as a file (InputFile), the others from memory (the writer copies the two kinds through different paths), every second one as a sub-range of its file. Segments of one incompressible content (240..256, 65500..65536 bytes: the stored size of its cluster exceeds the plain size) and of compressible contents with hint Detect are part of the sequences; 12 fixed cases put a lone incompressible cluster at an offset-width boundary between raw clusters.".into()
     }
 
     fn assumptions() -> Vec<String> {
@@ -219,11 +230,31 @@ impl Property for C08 {
         600
     }
 
+    /// a compressed cluster holding nothing but incompressible bytes whose stored size crosses a
+    /// power of 256 the plain size stays below (the offset width of the cluster tail), between
+    /// raw clusters, under two plans
+    fn fixed_cases(_tier: Tier) -> Vec<Case> {
+        let mut v = vec![];
+        for comp in [Comp::Zstd(3), Comp::Lz4(3), Comp::Lzma(1)] {
+            for len in [250u32, 255, 65530, 65535] {
+                v.push(Case {
+                    comp,
+                    segs: vec![Seg::Tiny { n: 40, hint: Hint::No, seed: len }, Seg::Noise { len, seed: len ^ 77 }, Seg::Tiny { n: 25, hint: Hint::No, seed: len + 1 }],
+                    plans: vec![Plan { kind: PlanKind::Uniform, seed: len, cpus: 2 }, Plan { kind: PlanKind::SlowWriter, seed: len, cpus: 8 }],
+                    file_sources: len % 2 == 0,
+                });
+            }
+        }
+        v
+    }
+
     fn strategy(tier: Tier) -> BoxedStrategy<Case> {
         let seg = prop_oneof![
             5 => (prop_oneof![2 => Just(4095u16), 2 => 4000u16..4200, 2 => 8190u16..8300, 1 => 1u16..300, 1 => 12285u16..12400], hint_yes_no(), any::<u32>()).prop_map(|(n, hint, seed)| Seg::Tiny { n, hint, seed }),
             2 => (1u8..=3, any::<u16>(), any::<u32>()).prop_map(|(n, extra, seed)| Seg::Big { n, extra, hint: Hint::Yes, seed }),
             1 => (prop_oneof![3 => 1u8..=3, 1 => 3u8..=6], hint_yes_no()).prop_map(|(clusters, hint)| Seg::Empties { clusters, hint }),
+            1 => (prop_oneof![2 => 240u32..257, 2 => 65500u32..65537, 1 => 1000u32..3000], any::<u32>()).prop_map(|(len, seed)| Seg::Noise { len, seed }),
+            1 => (1u8..=6, any::<u32>()).prop_map(|(n, seed)| Seg::Detect { n, seed }),
         ];
         let plan = (
             prop_oneof![
@@ -267,6 +298,8 @@ impl Property for C08 {
                     Seg::Tiny { n, .. } => *n as usize,
                     Seg::Big { n, .. } => *n as usize,
                     Seg::Empties { clusters, .. } => *clusters as usize * 4095,
+                    Seg::Noise { .. } => 1,
+                    Seg::Detect { n, .. } => *n as usize,
                 };
             }
             v
@@ -291,7 +324,13 @@ impl Property for C08 {
                 let mut addrs = Vec::with_capacity(items.len());
                 for (k, (b, h)) in items.iter().enumerate() {
                     let from_file = case.file_sources && (seg_starts.contains(&k) || k % 4095 == 0 || (k > 0 && items[k - 1].1 != *h));
-                    let reader = crate::gen::make_reader(b, if from_file { crate::gen::Source::File } else { crate::gen::Source::Mem });
+                    // every second file-backed content is a sub-range of its file (origin > 0)
+                    let source = match (from_file || (case.file_sources && *h == Hint::Detect), k % 2) {
+                        (false, _) => crate::gen::Source::Mem,
+                        (true, 0) => crate::gen::Source::File,
+                        (true, _) => crate::gen::Source::FileRange { before: 1 + (k % 97) as u16, after: (k % 5) as u16 },
+                    };
+                    let reader = crate::gen::make_reader(b, source);
                     match creator.add_content(reader, h.to_jbk()) {
                         Ok(a) => addrs.push(a),
                         Err(e) => fail!("add-error", "run {ri}: add_content: {e}"),
@@ -351,6 +390,9 @@ impl Property for C08 {
                         for (i, ((_, h), a)) in items.iter().zip(addrs.iter()).enumerate() {
                             let (cl, _) = cp.contents[a.content_id.into_u32() as usize];
                             let nib = cp.clusters[cl as usize].comp;
+                            if *h == Hint::Detect {
+                                continue; // Detect is only required to round-trip
+                            }
                             let want = if *h == Hint::Yes { case.comp.code() } else { 0 };
                             ensure!(
                                 nib == want,
@@ -386,6 +428,8 @@ impl Property for C08 {
                 Seg::Tiny { n, hint, .. } => format!("t{}{:?}", n / 4095, hint),
                 Seg::Big { n, .. } => format!("b{n}"),
                 Seg::Empties { clusters, hint } => format!("e{clusters}{hint:?}"),
+                Seg::Noise { len, .. } => format!("n{}", len / 256),
+                Seg::Detect { n, .. } => format!("d{n}"),
             })
             .collect();
         info.key = hash_str(&format!("{:?}|{shape:?}|{}", case.comp, distinct.len()));
